@@ -25,7 +25,9 @@ RULE = ("cases = (transport serial|socket, greeting start|none|'Grbl 1.1', "
         "(error:20 / Error:.. / ALARM:1 / !! ..) at a chosen position, an "
         "unsolicited error/alarm line after an acknowledgement (must surface "
         "at the next write), "
-        "connection loss at any position (later writes must raise, not hang); handshake replies drained "
+        "connection loss at any position (later writes must raise, not hang), a "
+        "second writer object in the same process whose device acknowledges "
+        "while this one's acknowledgement is withheld; handshake replies drained "
         "before the first statement, or (minority, counted) not); "
         "non-trivial = a case where some ack was withheld >=1 tick, or an "
         "error / unsolicited line / loss occurred; distinct by SHA-1")
@@ -52,7 +54,9 @@ LEVEL_TEXT = ("Generated statement sequences and device behaviours (latency "
 
 KNOWN_ID = "handshake-oks-shift-acks"
 STATEMENTS = ["G1 X{i} Y2 F1500", "G0 Z{i}", "M104 S{i}", "M114", "M105", "G92 E{i}",
-              "M400", "G4 P{i}", "M3 S{i}", "M5"]
+              "M400", "G4 P{i}", "M3 S{i}", "M5",
+              # interior runs of blanks and tabs must arrive unmodified
+              "M117 Layer  {i} of   10", "G1 X{i}\tY2\t F300"]
 UNSOLICITED = ["echo:busy: processing", " T:200.0 /210.0 B:60.0 /60.0 @:64",
                "<Idle|MPos:1.000,2.000,3.000|FS:0,0>", "wait", "//action:notification"]
 ERRORS = ["error:20", "Error:Printer halted. kill() called!", "ALARM:1", "!! halted",
@@ -112,6 +116,7 @@ def run_case(case, cl=None):
         else:
             w = SocketWriter("127.0.0.1", front.port)
         w.set_timeout(8.0)
+        w2 = fw2 = None
         try:
             if case["drain"]:
                 if "G4 P0" in behaviours:
@@ -133,6 +138,21 @@ def run_case(case, cl=None):
                         quiet = None
                     time.sleep(0.004)
             pending_alarm = None
+            if case.get("second_writer") and case["transport"] == "serial" and case["drain"]:
+                # another writer object in the same process, talking to its own
+                # device: its acknowledgements must not release this writer
+                from vf.firmware import FakeSerial
+                fw2 = Firmware(greeting="start")
+                FakeSerial.firmware = fw2
+                w2 = SerialWriter("/dev/ttyVERIF2", 115200)
+                w2.set_timeout(8.0)
+                if run_with_timeout(w2.connect, 12.0)[0] != "ok":
+                    raise HarnessError("second writer could not connect to its simulator")
+                t0 = time.time()
+                while fw2.pending() and time.time() - t0 < 3:
+                    time.sleep(0.004)
+                time.sleep(0.05)
+                cl.add("second_writer_in_process")
             for k, (st_, txt) in enumerate(zip(case["stmts"], sent_texts)):
                 gate = f"g{k}"
                 box = {}
@@ -171,6 +191,13 @@ def run_case(case, cl=None):
                         time.sleep(0.002)
                     if ticks:
                         cl.add("ack_withheld")
+                    if w2 is not None and st_.get("poke") and "r" not in box:
+                        # the OTHER writer completes a statement meanwhile
+                        r2 = run_with_timeout(lambda: w2.write(b"M400\n"), 5.0)
+                        if r2[0] != "ok":
+                            raise HarnessError(f"second writer's own write failed: {r2!r}")
+                        time.sleep(0.03)
+                        cl.add("other_writer_acked_while_withheld")
                     if "r" in box:
                         raise Violation(
                             f"write({txt!r}) returned ({box['r'][0]}) while the device was "
@@ -246,6 +273,8 @@ def run_case(case, cl=None):
         finally:
             for g_ in list(fw.gates):
                 fw.release(g_)
+            if w2 is not None:
+                run_with_timeout(lambda: w2.disconnect(True), 6.0)
             d = run_with_timeout(lambda: w.disconnect(True), 6.0)
             if d[0] == "hang" and not fw.lost and not state.get("failed") \
                     and not state.get("skip"):
@@ -315,7 +344,8 @@ def replay(case):
 def strategy():
     from hypothesis import strategies as st
     stmt = st.fixed_dictionaries({
-        "s": st.integers(0, 9), "hold": st.integers(0, 3)}, optional={
+        "s": st.integers(0, 11), "hold": st.integers(0, 3)}, optional={
+        "poke": st.booleans(),
         "unsolicited": st.lists(st.integers(0, 4), min_size=1, max_size=2),
         "error": st.integers(0, 4), "okline": st.booleans(),
         "alarm_after": st.integers(0, 4)})
@@ -325,6 +355,7 @@ def strategy():
         "stmts": st.lists(stmt, min_size=1, max_size=8),
         "drain": st.sampled_from([True] * 9 + [False]),
         "handshake_latency": st.sampled_from([0, 40, 120]),
+        "second_writer": st.sampled_from([False, False, True]),
         "lose_last": st.one_of(st.just(False), st.just(False), st.just(True),
                                st.integers(0, 7))}).map(_finish)
 
